@@ -17,7 +17,7 @@ import logging
 import finam as fm
 
 from .. import common
-from ..fmutil import T, ad, err_class
+from ..fmutil import limited, T, ad, err_class
 
 MODULES = ["Validate", "ValidateLemmas"]
 GEN_OBLIGATIONS = ["caching_push_based", "push_based_adapters_are_caching", "passthrough_flags", "slot_flags",
@@ -363,7 +363,7 @@ def run_impl(case):
     has_time = any(case["comps"][c]["timed"] for c in case["order"])
     res = {"error": None, "rule": None, "msg": None, "links": None, "pre_exchange": None}
     try:
-        composition.connect(T(0) if has_time else None)
+        limited(60, composition.connect, T(0) if has_time else None)
     except Exception as e:  # noqa
         res["error"] = err_class(e)
         res["msg"] = f"{type(e).__name__}: {str(e)[:160]}"
